@@ -131,6 +131,10 @@ theorem WaitT_eq (w : Waiter) (tm : TimerSt) (e : Env) : Gen.Waiter.WaitT w tm e
 and nothing in the package touches a `timer` field except the arming statement and the `case <-w.timer.C` of `Wait` -/
 theorem newWaiter_wiring : Gen.Waiter.newWaiterFields = ["sched"] ∧ Gen.Waiter.timerOtherUses = 0 := by decide
 
+/-- every call of the waiter in `(*instance).Run` (`IsFinished`, `Wait`, `IsSlowDown`) gets the context parameter of `Run`, which is
+never re-bound: a context that one call saw done is done for every later call (`CtxSticky`, `CtxMono`) -/
+theorem run_ctx_wiring : Gen.Waiter.runWaiterCallArgs = [Gen.Waiter.runCtxParam] ∧ Gen.Waiter.runCtxRebound = 0 := by decide
+
 /-- where the phout aggregator prints the net code: the regenerated indices of the `key…` constants are the model's,
 `SetUserNet` stores under `keyErrno`, `set` is the plain store, and a line is time stamp, TAB, tags, `#id`, then every field after a TAB -/
 theorem phout_wiring :
